@@ -269,15 +269,15 @@ def check(case):
             if shared is not None:
                 res = S.solve(f0, cfl, tsave, stop=stopd(10 ** 6), **kw)      # an iteration limit that is never reached: the run ends at tsave[-1]
             else:
-                res = S.solve(f0, cfl, tsave, **kw)
+                res = S.solve(f0, cfl, tsave, stop={"maxit": 2000}, **kw)      # (N <= 6 iterations are expected: the limit only turns a run that never ends into a failure)
             require(len(res) == len(tsave), "snapshots-returned", "%s returns %d snapshots" % (what, len(res)))
             require(S.nit() == N, "saves-iteration-count", "%s: nit() = %d" % (what, S.nit()))
             # same call without the intermediate save times: model (fresh object) and the same object
             fresh = cases.build_integrator(integ, P.mesh, P.disc)
-            ref = fresh.solve(f0, cfl, [T])
+            ref = fresh.solve(f0, cfl, [T], stop={"maxit": 2000})
             require(len(ref) == 1, "model-sanity", "reference solve returns %d snapshots" % len(ref))
             require(_eq(res[-1], ref[0], xtol), "saving-does-not-change-trajectory", "%s: the final snapshot differs from the run that only saves the final time by %.3g" % (what, _diff(res[-1], ref[0])))
-            same = S.solve(f0, cfl, [T])
+            same = S.solve(f0, cfl, [T], stop={"maxit": 2000})
             require(_eq(res[-1], same[0], None), "saving-does-not-change-trajectory-same-object", "%s: on the same solver object the final snapshot differs from the run without intermediate saves by %.3g" % (what, _diff(res[-1], same[0])))
             _judge_monitors(P, md, mon, states[:N + 1], 0, what)
             last = None
@@ -297,7 +297,7 @@ def check(case):
 REQUIRED_LABELS = ['call_histories/restart', 'call_histories/saves', 'call_histories/repeat', 'call_histories/integ:gear', 'call_histories/cfl-changes-between-calls', 'call_histories/ctor-monitor', 'call_histories/implicit', 'call_histories/model:convection']
 
 SUBCHECKS = [
-    SubCheck("call_histories", check, strategy=strat, examples={"quick": 250, "thorough": 1500}, shards={"quick": 10, "thorough": 16}),
+    SubCheck("call_histories", check, strategy=strat, examples={"quick": 350, "thorough": 1500}, shards={"quick": 10, "thorough": 16}),
 ]
 
 META = dict(
